@@ -403,6 +403,49 @@ def run_shortcuts(_):
     return n, viols
 
 
+HISTORY_EXPRS = ["1.5d-1*Tgas", "2d0**3", "Tgas**(-0.5)", "exp(-3d0*invT)", "n(idx_H)*2d0", "foo/Tgas", "3/2*Tgas", "sqrt(Tgas)-2d0*foo", "1d-10"]
+
+
+def run_history(_):
+    """The translation is a function of the expression alone: translating other expressions before (the converter
+    object is shared by all KROME reactions), translating the same reaction twice, and giving a reaction another
+    expression (`rate_string` is the one handle the API offers for that) must each give the text a fresh
+    translation of that expression gives.  All ordered pairs and all re-assignments over nine expressions."""
+    from ..harness.render import reset_globals, quiet
+
+    reset_globals()
+    from naunet.reactions.kromereaction import KROMEReaction
+
+    KROMEReaction.initialize()
+    KROMEReaction._user_vars = ["foo = 1.7", "a2d3 = 1.1"]
+    viols = []
+    n = 0
+    with quiet():
+        fresh = {}
+        for e in HISTORY_EXPRS:
+            fresh[e] = KROMEReaction(f"1,H,,,H,,,,NONE,NONE,{e}").rateexpr()
+        for e1 in HISTORY_EXPRS:
+            for e2 in HISTORY_EXPRS:
+                case = {"history": [e1, e2]}
+                # (a) two reactions, translated alternately
+                r1 = KROMEReaction(f"1,H,,,H,,,,NONE,NONE,{e1}")
+                r2 = KROMEReaction(f"2,H,,,H,,,,NONE,NONE,{e2}")
+                got = [r1.rateexpr(), r2.rateexpr(), r1.rateexpr(), r2.rateexpr()]
+                n += 1
+                if got != [fresh[e1], fresh[e2], fresh[e1], fresh[e2]]:
+                    viols.append(("C12:history:alternating", f"translating {e1!r} and {e2!r} alternately gives {got}, fresh translations are {fresh[e1]!r} / {fresh[e2]!r}", case))
+                # (b) one reaction whose expression is replaced after it was translated (and printed) once
+                r = KROMEReaction(f"1,H,,,H,,,,NONE,NONE,{e1}")
+                first = r.rateexpr()
+                str(r)
+                r.rate_string = e2
+                second = r.rateexpr()
+                n += 1
+                if first != fresh[e1] or second != fresh[e2]:
+                    viols.append(("C12:history:expression-replaced", f"a reaction translated with {e1!r} and then given rate_string = {e2!r} translates to {second!r}; a fresh reaction with that expression gives {fresh[e2]!r}", case))
+    return n, viols
+
+
 def run_near_miss(_):
     from ..harness.render import reset_globals, quiet
 
@@ -494,6 +537,9 @@ def run(ctx):
     for n, viols in ctx.pmap(run_near_miss, [0]):
         tot += n
         ctx.absorb(viols)
+    for n, viols in ctx.pmap(run_history, [0]):
+        tot += n
+        ctx.absorb(viols)
     bund = bundled_expressions()
     if ctx.tier == "quick":
         bund = bund[:: max(1, len(bund) // 300)]
@@ -507,6 +553,7 @@ def run(ctx):
         "C side: the emitted text is evaluated by E4 with C typing rules (int/int truncates, pow returns double) on 5 valuations with pairwise distinct values incl. a negative one",
         "KROME's shortcut variables are free variables of an expression; for the bundled rates (functions of the gas temperature) their registered definitions must be KROME's: Te = Tgas*8.617343e-5, lnTe = log(Te), T32 = Tgas/300, invT = 1/Tgas, invTe = 1/Te, sqrTgas = sqrt(Tgas)",
         "abundance references: naunet's own index convention (trailing p='+', m='-') is assumed when deciding which species n(idx_X) names; the macro a species gets is the documented alias",
+        "history clause: over nine expressions, every ordered pair translated alternately through two reactions and every re-assignment of rate_string on a reaction already translated must give the text of a fresh translation",
         "an expression the translator raises on counts as rejected (allowed by the property); it is never judged",
     ]
     return {
@@ -526,6 +573,9 @@ def run(ctx):
 
 
 def replay(ctx, case):
+    if "history" in case:
+        ctx.absorb(run_history(0)[1])
+        return
     if case.get("shortcuts"):
         ctx.absorb(run_shortcuts(0)[1])
         return
